@@ -250,4 +250,30 @@ def run(db, tier):
             ok = True
     rep.check(ok, "R-ANTISCRATCH", "PersistentState::finish|both-flags->Err", pf.loc, "file-wide variant: both flags set => error",
               "PersistentState::finish no longer fails when both file-wide scratch flags are set")
+    # ---------------- R-SCOPE-END: a local's register is released at the END of its block
+    from rules import hirq
+    rep.rule("R-SCOPE-END", "the ScopeEnd statement (-> RegFree) of a local is appended at the end of the block that declares it, after the "
+                            "whole block was walked: a local stays allocated for its entire lexical scope (its last textual mention is not "
+                            "its last use when a backward jump follows)")
+    sv = db.fn("<passes::desugar_blocks::InsertLocalScopeEndsVisitor<'_> as ast::mut_::VisitMut>::visit_block")
+    rep.fn(sv)
+    Ls = hirq.lets(sv)
+    pushes, others = [], []
+    for c in hirq.call_seq(sv.hir):
+        fe = set()
+        for a in c.get("a", []):
+            fe |= hirq.features(sv, a, Ls)
+        if hirq.has_ctor(fe, "StmtKind::ScopeEnd"):
+            (pushes if c["f"].endswith("Vec::<T, A>::push") else others).append(c)
+    walk_ln = [c["ln"] for c in hirq.call_seq(sv.hir, ("ast::mut_::walk_block",))]
+    ok = bool(pushes) and not others and bool(walk_ln) and all(p_["ln"] > max(walk_ln) for p_ in pushes)
+    rep.check(ok, "R-SCOPE-END", "visit_block|appended at block end", sv.loc, "ScopeEnd is push()ed onto the block after walk_block_mut",
+              "ScopeEnd statements are placed with %s instead of being appended at the end of the block: a local can be released before the "
+              "end of its scope and its register handed to a temporary while a backward jump still reaches a use"
+              % (sorted(set(c["f"].rsplit("::", 1)[-1] for c in others)) or "nothing"))
+    dv = db.fn("<passes::desugar_blocks::InsertLocalScopeEndsVisitor<'_> as ast::mut_::VisitMut>::visit_stmt")
+    rep.fn(dv)
+    decl_push = any(c["f"].endswith("Vec::<T, A>::push") for c in hirq.call_seq(dv.hir))
+    rep.check(decl_push, "R-SCOPE-END", "visit_stmt|every declared local is recorded", dv.loc, "declarations push their DefId onto the current block's list",
+              "declared locals are no longer recorded for release")
     return rep
